@@ -131,6 +131,7 @@ def _run_chunk(args):
 def correspond(lines, bins, tag, want_model=True, want_spec=True):
     """run the real crate (both profiles), the model and the spec on `lines`; returns aggregated result"""
     lines = list(lines)
+    random.Random(len(lines)).shuffle(lines)      # spread slow cases (panics, watchdog timeouts) evenly over the parallel chunks
     nchunks = max(1, min(NCPU, len(lines) // 2000 + 1))
     size = (len(lines) + nchunks - 1) // nchunks
     chunks = [(i, lines[i * size:(i + 1) * size], bins, want_model, want_spec, tag) for i in range(nchunks) if lines[i * size:(i + 1) * size]]
